@@ -23,9 +23,18 @@ def _param_result(p):
 
 
 # ------------------------------------------------------------------ generation
+def _value(rng):
+    """gen_text.value, plus a stratum of degenerate str values (blanks/tabs only, quote marks only, punctuation only,
+    padded one-character tokens)"""
+    v = G.value(rng)
+    if rng.random() < 0.12:
+        v = G.degenerate_str_value(rng)
+    return v
+
+
 def _sentence(rng):
     """(line, typ) with an announced default somewhere"""
-    v = G.value(rng)
+    v = _value(rng)
     typ = G.consistent_typ(rng, v)
     if rng.random() < 0.15:
         typ = rng.choice(G.SCALAR_TYPES + [None])
@@ -62,7 +71,7 @@ def gen(rng, n, tier="quick"):
             ann = rng.choice([["Default is "], ["defaults to "], ["Default:", "defaults to "], []])
             add("extract_default", [line, True, ann, typ, rng.random() < 0.5], "custom-announce")
         elif r < 0.80:
-            v = G.value(rng)
+            v = _value(rng)
             typ = G.consistent_typ(rng, v)
             p = {}
             if rng.random() < 0.95:
@@ -81,7 +90,7 @@ def gen(rng, n, tier="quick"):
             if rng.random() < 0.5:
                 p["typ"] = typ
             if rng.random() < 0.3:
-                p["default"] = G.value(rng)
+                p["default"] = _value(rng)
             add("remove_default_from_param", [p, rng.random() < 0.5], "remove")
         elif r < 0.90:
             t = G.type_expr(rng) if rng.random() < 0.8 else rng.choice(
@@ -89,7 +98,7 @@ def gen(rng, n, tier="quick"):
                  "Literal['x']", "Dict[str, int]", "Callable[[int], str]", "Tuple[int, ...]", "int or str", ""])
             add("needs_quoting", [t], "typ")
         elif r < 0.94:
-            v = G.value(rng)
+            v = _value(rng) if rng.random() < 0.7 else G.degenerate_str_value(rng)
             add("quote", [v], "quote")
             if isinstance(v, str):
                 add("unquote", [rng.choice([v, '"%s"' % v, "'%s'" % v, "'", '"', '""'])], "unquote")
